@@ -86,15 +86,39 @@ struct Tracker {  // capture of every functor: counts live instances
   }
 };
 
+// the value type of every pipeline: an int that counts how often the LIBRARY copies it (a copy of a value that owns heap
+// memory is an allocation; moves are free)
+struct HV {
+  int v = 0;
+  static inline long copies = 0;
+  HV() = default;
+  explicit HV(int x) : v{x} {
+  }
+  HV(const HV& o) : v{o.v} {
+    ++copies;
+  }
+  HV(HV&& o) noexcept : v{o.v} {
+  }
+  HV& operator=(const HV& o) {
+    v = o.v;
+    ++copies;
+    return *this;
+  }
+  HV& operator=(HV&& o) noexcept {
+    v = o.v;
+    return *this;
+  }
+};
+
 struct Run {
   int invoked[16];
   const char* ran[16];
   int n_invoked = 0;
-  yaclib::Promise<int> pending[8];
+  yaclib::Promise<HV> pending[8];
   int pending_val[8];
   int n_pending = 0;
-  yaclib::SharedFuture<int> cache;  // a ready SharedFuture with one more holder than the pipeline
-  yaclib::SharedPromise<int> spending[8];
+  yaclib::SharedFuture<HV> cache;  // a ready SharedFuture with one more holder than the pipeline
+  yaclib::SharedPromise<HV> spending[8];
   int spending_val[8];
   int n_spending = 0;
   void Note(int idx) {
@@ -149,36 +173,36 @@ auto Produce(Beh b, int n) {
     if (b == Beh::thr) {
       throw TE{1};
     }
-    return n + 1;
+    return HV{n + 1};
   } else if constexpr (RC == 1) {
     if (b == Beh::res_val) {
-      return Result<int>{n + 2};
+      return Result<HV>{HV{n + 2}};
     }
     if (b == Beh::res_err) {
-      return Result<int>{yaclib::StopTag{}};
+      return Result<HV>{yaclib::StopTag{}};
     }
-    return Result<int>{std::make_exception_ptr(TE{2})};
+    return Result<HV>{std::make_exception_ptr(TE{2})};
   } else if constexpr (RC == 2) {
     if (b == Beh::fut_ready) {
-      return yaclib::MakeFuture<int>(n + 3);
+      return yaclib::MakeFuture<HV>(HV{n + 3});
     }
     if (b == Beh::fut_err) {
-      return yaclib::MakeFuture<int>(yaclib::StopTag{});
+      return yaclib::MakeFuture<HV>(yaclib::StopTag{});
     }
-    auto [f, p] = yaclib::MakeContract<int>();
+    auto [f, p] = yaclib::MakeContract<HV>();
     g_run->pending[g_run->n_pending] = std::move(p);
     g_run->pending_val[g_run->n_pending++] = n + 4;
     return std::move(f);
   } else if constexpr (RC == 3) {
     if (b == Beh::shared_cached_exc) {
       if (!g_run->cache.Valid()) {
-        auto [cf, cp] = yaclib::MakeSharedContract<int>();
+        auto [cf, cp] = yaclib::MakeSharedContract<HV>();
         std::move(cp).Set(std::make_exception_ptr(TE{2}));
         g_run->cache = std::move(cf);
       }
-      return yaclib::SharedFuture<int>{g_run->cache};
+      return yaclib::SharedFuture<HV>{g_run->cache};
     }
-    auto [f, p] = yaclib::MakeSharedContract<int>();
+    auto [f, p] = yaclib::MakeSharedContract<HV>();
     if (b == Beh::shared_ready) {
       std::move(p).Set(n + 5);
     } else {
@@ -188,23 +212,23 @@ auto Produce(Beh b, int n) {
     return std::move(f);
   } else {
     if (b == Beh::task_make) {
-      return yaclib::MakeTask<int>(n + 7);
+      return yaclib::MakeTask<HV>(HV{n + 7});
     }
     if (b == Beh::task_sched) {
       return yaclib::Schedule([n] {
-        return n + 8;
+        return HV{n + 8};
       });
     }
     if (b == Beh::task_contract) {
-      return yaclib::LazyContract<int>([n](yaclib::Promise<int> p) {
+      return yaclib::LazyContract<HV>([n](yaclib::Promise<HV> p) {
         std::move(p).Set(n + 9);
       });
     }
     return yaclib::Schedule([n] {
-             return n + 10;
+             return HV{n + 10};
            })
-      .ThenInline([](int x) {
-        return x + 1;
+      .ThenInline([](HV x) {
+        return HV{x.v + 1};
       });
   }
 }
@@ -217,9 +241,9 @@ struct Fn {
   using Ret = decltype(Produce<RC>(Beh::val, 0));
 
   template <char B = A, std::enable_if_t<B == 'V', int> = 0>
-  Ret operator()(int v) {
+  Ret operator()(HV v) {
     g_run->Note(idx);
-    return Produce<RC>(beh, v);
+    return Produce<RC>(beh, v.v);
   }
   template <char B = A, std::enable_if_t<B == 'E', int> = 0>
   Ret operator()(yaclib::StopError) {
@@ -232,14 +256,14 @@ struct Fn {
     return Produce<RC>(beh, 0);
   }
   template <char B = A, std::enable_if_t<B == 'R', int> = 0>
-  Ret operator()(Result<int>&& r) {
+  Ret operator()(Result<HV>&& r) {
     g_run->Note(idx);
-    int n = r.State() == yaclib::ResultState::Value ? std::move(r).Value() : 0;
+    int n = r.State() == yaclib::ResultState::Value ? std::move(r).Value().v : 0;
     return Produce<RC>(beh, n);
   }
 };
 
-using Holder = std::variant<Future<int>, FutureOn<int>>;
+using Holder = std::variant<Future<HV>, FutureOn<HV>>;
 
 RecExec& Exec(const std::string& att) {
   return att == "e1" ? g_e1 : g_e2;
@@ -249,7 +273,7 @@ template <char A, int RC>
 void AttachEager(Holder& h, const std::string& att, int idx, Beh beh) {
   Fn<A, RC> fn{idx, beh, {}};
   if (att == "inline") {
-    if (auto* f = std::get_if<Future<int>>(&h)) {
+    if (auto* f = std::get_if<Future<HV>>(&h)) {
       h = Holder{std::in_place_index<0>, std::move(*f).ThenInline(std::move(fn))};
     } else {
       h = Holder{std::in_place_index<1>, std::move(std::get<1>(h)).ThenInline(std::move(fn))};
@@ -257,7 +281,7 @@ void AttachEager(Holder& h, const std::string& att, int idx, Beh beh) {
   } else if (att == "inh") {
     h = Holder{std::in_place_index<1>, std::move(std::get<1>(h)).Then(std::move(fn))};
   } else {
-    if (auto* f = std::get_if<Future<int>>(&h)) {
+    if (auto* f = std::get_if<Future<HV>>(&h)) {
       h = Holder{std::in_place_index<1>, std::move(*f).Then(Exec(att), std::move(fn))};
     } else {
       h = Holder{std::in_place_index<1>, std::move(std::get<1>(h)).Then(Exec(att), std::move(fn))};
@@ -266,7 +290,7 @@ void AttachEager(Holder& h, const std::string& att, int idx, Beh beh) {
 }
 
 template <char A, int RC>
-void AttachLazy(Task<int>& t, const std::string& att, int idx, Beh beh) {
+void AttachLazy(Task<HV>& t, const std::string& att, int idx, Beh beh) {
   Fn<A, RC> fn{idx, beh, {}};
   if (att == "inline") {
     t = std::move(t).ThenInline(std::move(fn));
@@ -355,19 +379,19 @@ void FulfilPending(Run& run) {
   int i = 0, j = 0;
   while (i < run.n_pending || j < run.n_spending) {
     if (i < run.n_pending) {
-      std::move(run.pending[i]).Set(run.pending_val[i]);
+      std::move(run.pending[i]).Set(HV{run.pending_val[i]});
       ++i;
     }
     if (j < run.n_spending) {
-      std::move(run.spending[j]).Set(run.spending_val[j]);
+      std::move(run.spending[j]).Set(HV{run.spending_val[j]});
       ++j;
     }
   }
 }
 
-std::string DescR(const Result<int>& r) {
+std::string DescR(const Result<HV>& r) {
   switch (r.State()) {
-    case yaclib::ResultState::Value: return "v" + std::to_string(std::as_const(r).Value());
+    case yaclib::ResultState::Value: return "v" + std::to_string(std::as_const(r).Value().v);
     case yaclib::ResultState::Error: return "stop";
     case yaclib::ResultState::Exception:
       if (!std::as_const(r).Exception()) {
@@ -391,48 +415,49 @@ std::string RunProgram(const Program& p) {
   g_e2.Reset(p.rej2);
   Tracker::live = 0;
   std::string final = "?";
+  HV::copies = 0;
   auto stats0 = vrt::GetAllocStats();
   std::uint64_t build_news = 0;
   {
     if (p.mode == "eager") {
-      Holder h{std::in_place_index<0>, Future<int>{}};
-      yaclib::Promise<int> later;
+      Holder h{std::in_place_index<0>, Future<HV>{}};
+      yaclib::Promise<HV> later;
       std::string later_kind;
       const auto& s = p.src;
       if (s == "ready_val") {
-        h = Holder{std::in_place_index<0>, yaclib::MakeFuture<int>(1)};
+        h = Holder{std::in_place_index<0>, yaclib::MakeFuture<HV>(HV{1})};
       } else if (s == "ready_err") {
-        h = Holder{std::in_place_index<0>, yaclib::MakeFuture<int>(yaclib::StopTag{})};
+        h = Holder{std::in_place_index<0>, yaclib::MakeFuture<HV>(yaclib::StopTag{})};
       } else if (s == "ready_exc") {
-        h = Holder{std::in_place_index<0>, yaclib::MakeFuture<int>(std::make_exception_ptr(TE{3}))};
+        h = Holder{std::in_place_index<0>, yaclib::MakeFuture<HV>(std::make_exception_ptr(TE{3}))};
       } else if (s == "before_val" || s == "after_val" || s == "after_err" || s == "after_exc") {
-        auto [f, pr] = yaclib::MakeContract<int>();
+        auto [f, pr] = yaclib::MakeContract<HV>();
         h = Holder{std::in_place_index<0>, std::move(f)};
         if (s == "before_val") {
-          std::move(pr).Set(1);
+          std::move(pr).Set(HV{1});
         } else {
           later = std::move(pr);
           later_kind = s;
         }
       } else if (s == "on_after_val") {
-        auto [f, pr] = yaclib::MakeContractOn<int>(g_e1);
+        auto [f, pr] = yaclib::MakeContractOn<HV>(g_e1);
         h = Holder{std::in_place_index<1>, std::move(f)};
         later = std::move(pr);
         later_kind = "after_val";
       } else if (s == "run_val") {
         h = Holder{std::in_place_index<1>, yaclib::Run(g_e1, [t = Tracker{}] {
                      g_run->Note(0);
-                     return 1;
+                     return HV{1};
                    })};
       } else if (s == "run_throw") {
-        h = Holder{std::in_place_index<1>, yaclib::Run(g_e1, [t = Tracker{}]() -> int {
+        h = Holder{std::in_place_index<1>, yaclib::Run(g_e1, [t = Tracker{}]() -> HV {
                      g_run->Note(0);
                      throw TE{1};
                    })};
       } else if (s == "acontract_val") {
-        h = Holder{std::in_place_index<0>, yaclib::AsyncContract<int>([t = Tracker{}](yaclib::Promise<int> pr) {
+        h = Holder{std::in_place_index<0>, yaclib::AsyncContract<HV>([t = Tracker{}](yaclib::Promise<HV> pr) {
                      g_run->Note(0);
-                     std::move(pr).Set(1);
+                     std::move(pr).Set(HV{1});
                    })};
       } else {
         return "final=badsrc";
@@ -447,7 +472,7 @@ std::string RunProgram(const Program& p) {
       build_news = vrt::GetAllocStats().news - stats0.news;
       if (later.Valid()) {
         if (later_kind == "after_val") {
-          std::move(later).Set(1);
+          std::move(later).Set(HV{1});
         } else if (later_kind == "after_err") {
           std::move(later).Set(yaclib::StopTag{});
         } else {
@@ -468,26 +493,28 @@ std::string RunProgram(const Program& p) {
         },
         h);
     } else {
-      Task<int> t;
+      Task<HV> t;
       const auto& s = p.src;
       if (s == "task_val") {
-        t = yaclib::MakeTask<int>(1);
+        t = yaclib::MakeTask<HV>(HV{1});
       } else if (s == "task_err") {
-        t = yaclib::MakeTask<int>(yaclib::StopTag{});
+        t = yaclib::MakeTask<HV>(yaclib::StopTag{});
+      } else if (s == "task_exc") {
+        t = yaclib::MakeTask<HV>(std::make_exception_ptr(TE{3}));
       } else if (s == "sched_val") {
         t = yaclib::Schedule(g_e1, [tr = Tracker{}] {
           g_run->Note(0);
-          return 1;
+          return HV{1};
         });
       } else if (s == "sched_throw") {
-        t = yaclib::Schedule(g_e1, [tr = Tracker{}]() -> int {
+        t = yaclib::Schedule(g_e1, [tr = Tracker{}]() -> HV {
           g_run->Note(0);
           throw TE{1};
         });
       } else if (s == "lcontract_val") {
-        t = yaclib::LazyContract<int>([tr = Tracker{}](yaclib::Promise<int> pr) {
+        t = yaclib::LazyContract<HV>([tr = Tracker{}](yaclib::Promise<HV> pr) {
           g_run->Note(0);
-          std::move(pr).Set(1);
+          std::move(pr).Set(HV{1});
         });
       } else {
         return "final=badsrc";
@@ -495,7 +522,7 @@ std::string RunProgram(const Program& p) {
       int idx = 0;
       for (auto& st : p.steps) {
         ++idx;
-        Dispatch<Task<int>>(st.arg, RetClass(st.beh), [&](auto a, auto rc) {
+        Dispatch<Task<HV>>(st.arg, RetClass(st.beh), [&](auto a, auto rc) {
           AttachLazy<decltype(a)::value, decltype(rc)::value>(t, st.att, idx, st.beh);
         });
       }
@@ -505,11 +532,11 @@ std::string RunProgram(const Program& p) {
       if (before_start != 0 || sub_before != 0) {
         final = "ran_before_start";
       } else if (p.start == "to_future" || p.start == "to_future_e2") {
-        std::variant<Future<int>, FutureOn<int>> f{std::in_place_index<0>, Future<int>{}};
+        std::variant<Future<HV>, FutureOn<HV>> f{std::in_place_index<0>, Future<HV>{}};
         if (p.start == "to_future") {
-          f = std::variant<Future<int>, FutureOn<int>>{std::in_place_index<0>, std::move(t).ToFuture()};
+          f = std::variant<Future<HV>, FutureOn<HV>>{std::in_place_index<0>, std::move(t).ToFuture()};
         } else {
-          f = std::variant<Future<int>, FutureOn<int>>{std::in_place_index<1>, std::move(t).ToFuture(g_e2)};
+          f = std::variant<Future<HV>, FutureOn<HV>>{std::in_place_index<1>, std::move(t).ToFuture(g_e2)};
         }
         FulfilPending(run);
         std::visit(
@@ -558,7 +585,7 @@ std::string RunProgram(const Program& p) {
      << ";drops=" << g_e1.drops << "," << g_e2.drops << ";allocs=" << (stats1.news - stats0.news)
      << ";build_allocs=" << build_news
      << ";leak=" << (static_cast<long>(stats1.news - stats0.news) - static_cast<long>(stats1.deletes - stats0.deletes))
-     << ";flive=" << Tracker::live << ";cache=" << cache;
+     << ";flive=" << Tracker::live << ";cache=" << cache << ";copies=" << HV::copies;
   g_run = nullptr;
   return os.str();
 }
